@@ -258,12 +258,29 @@ def run_case(case, ctx):
         ninc = rng.choice([3, 40, 120, 210])
         probe = ('gunus\tequ\t%d\n\tifdef\tgunus\n\t%s\t3\n\tendif\n\tifused\tgunus\n\t%s\t1\n\tendif\n\tifnused\tgunus\n\t%s\t2,2\n\tendif\n'
                  '\trept\t%d\n\tinclude\t"%s.inc"\n\tendm\n' % (rng.randrange(1, 99), gbop, gbop, gbop, ninc, name))
+        # include files named relative to the including file ('./', '../': "relative to this file's directory, not to the directory the
+        # assembler was called from"), with decoys of the same name where a wrong base directory would find them; one include file that
+        # is only found through the -i path; an exported macro (-M writes it to a file while assembling)
+        incv = rng.randrange(256)
+        probe += '\tinclude\t"./%s_r.inc"\n\tinclude\t"../s/%s_r.inc"\n\tinclude\t"%s_p.inc"\n' % (name, name, name)
+        probe += 'gexp\tmacro\t{EXPORT},qa\n\t%s\tqa\n\tendm\n\tgexp\t%d\n' % (gbop, rng.randrange(256))
         text = text.replace('\tend\n', probe + '\tend\n')
         with open(os.path.join(src_dir, name + '.inc'), 'w', encoding='latin-1') as f:
             f.write('\t%s\t%d\n' % (gbop, rng.randrange(256)))
+        with open(os.path.join(src_dir, name + '_r.inc'), 'w', encoding='latin-1') as f:
+            f.write('\t%s\t%d\n' % (gbop, incv))
+        for decoy_dir in (ctx.dir, os.path.dirname(ctx.dir.rstrip('/'))):
+            try:
+                with open(os.path.join(decoy_dir, name + '_r.inc'), 'w', encoding='latin-1') as f:
+                    f.write('\t%s\t%d,%d\n' % (gbop, incv ^ 0x55, incv))
+            except OSError:
+                pass
+        os.makedirs(os.path.join(ctx.dir, 'ipath'), exist_ok=True)
+        with open(os.path.join(ctx.dir, 'ipath', name + '_p.inc'), 'w', encoding='latin-1') as f:
+            f.write('\t%s\t%d\n' % (gbop, rng.randrange(256)))
         with open(os.path.join(src_dir, name + '.asm'), 'w', encoding='latin-1') as f:
             f.write(text)
-        flags = ['-D', 'REV=%d' % rng.randrange(1, 9), '-D', 'TURBO']
+        flags = ['-D', 'REV=%d' % rng.randrange(1, 9), '-D', 'TURBO', '-i', os.path.join(ctx.dir, 'ipath')]
         all_src = text.encode('latin-1')
     out.sets['programs'].add(name)
     base_args = ['-q', '-i', corpus.include_dir()]
@@ -278,6 +295,9 @@ def run_case(case, ctx):
         if 'prog' in case:
             out.violate('corpus-baseline-fails:' + name, 'golden program does not assemble: rc=%s %s' % (base.rc, base.run.text()[-300:]))
             return
+        # a generated program is valid by construction: if it is rejected the generator (or the tree) is wrong - never compare silently less
+        out.inconc('generated program %s does not assemble: rc=%s %s' % (name, base.rc, base.run.text()[-200:].replace('\n', ' | ')))
+        return
     base_sha = sha(base.p)
     configs = []
     # configuration 0: every report option at once (one representative of each option that takes a value), so that
@@ -290,7 +310,11 @@ def run_case(case, ctx):
     configs.append((allopts, rng.choice(LOCALES), 'none'))
     # configuration 1: a listing with parts of it masked out (+t clears mask bits, -t sets them)
     configs.append(([['-L'], ['+t', str(rng.choice([32, 63, 255, rng.randrange(1, 256), 1 << rng.randrange(8)]))]], None, 'none'))
-    for ci in range(case['k'] - 2):
+    # configuration 2: ONE report option all by itself (other options may mask its side effects), rotating over the list
+    solo_opt = REPORT_OPTS[(ctx.idx * 7 + ctx.seed) % len(REPORT_OPTS)]
+    if not (b'\\{' in all_src and solo_opt in STRINGIFY_SENSITIVE):
+        configs.append(([solo_opt], None, 'none'))
+    for ci in range(max(0, case['k'] - 3)):
         nopt = rng.choice([1, 2, 3, 4, 6])
         opts = rng.sample(REPORT_OPTS, nopt)
         if b'\\{' in all_src:
